@@ -39,6 +39,16 @@ func vhSvgNewEl() *vhSvgEl {
 	return &vhSvgEl{props: map[string]string{}, cols: map[string]color.RGBA{}, nums: map[string][]float64{}}
 }
 
+// gradients defined in the document
+type vhSvgGrad struct {
+	id             string
+	x1, y1, x2, y2 float64
+	offs           []float64
+	cols           []color.RGBA
+}
+
+var vhSvgGrads []*vhSvgGrad
+
 // ---- engine front-end: recorder ----
 
 type vhSvgRec struct {
@@ -92,12 +102,42 @@ func vhSvgNumArg(a interface{}) (float64, bool) {
 // vhSvgFromRecs turns the recorded calls into elements.
 func vhSvgFromRecs() (els []*vhSvgEl, ok bool) {
 	ok = true
+	vhSvgGrads = nil
 	var cur *vhSvgEl
 	target := "" // property the next paint token belongs to
 	npath := 0
 	for _, r := range vhSvgRecs {
 		f := r.format
 		switch {
+		case f == `<defs>` || f == `</defs>` || f == `</linearGradient>`:
+		case len(f) > 16 && f[:16] == `<linearGradient `:
+			g := &vhSvgGrad{}
+			if id, isS := r.args[0].(string); isS && len(r.args) == 5 {
+				g.id = id
+				var o1, o2, o3, o4 bool
+				g.x1, o1 = vhSvgNumArg(r.args[1])
+				g.y1, o2 = vhSvgNumArg(r.args[2])
+				g.x2, o3 = vhSvgNumArg(r.args[3])
+				g.y2, o4 = vhSvgNumArg(r.args[4])
+				ok = ok && o1 && o2 && o3 && o4
+			} else {
+				ok = false
+			}
+			vhSvgGrads = append(vhSvgGrads, g)
+		case len(f) > 6 && f[:6] == `<stop ` && len(vhSvgGrads) > 0 && len(r.args) == 2:
+			g := vhSvgGrads[len(vhSvgGrads)-1]
+			o, isN := vhSvgNumArg(r.args[0])
+			c, isC := r.args[1].(canvas.CSSColor)
+			ok = ok && isN && isC
+			g.offs = append(g.offs, o)
+			g.cols = append(g.cols, color.RGBA(c))
+		case f == "url(#%v)" && len(r.args) == 1 && cur != nil:
+			if id, isS := r.args[0].(string); isS && target != "" {
+				cur.props[target] = "url:" + id
+			} else {
+				ok = false
+			}
+			target = ""
 		case f == `<path d="%s`:
 			cur = vhSvgNewEl()
 			els = append(els, cur)
@@ -217,6 +257,10 @@ func vhSvgSetProp(el *vhSvgEl, key, val string) bool {
 			el.props[key] = "none"
 			return true
 		}
+		if len(val) > 6 && val[:5] == "url(#" && val[len(val)-1] == ')' {
+			el.props[key] = "url:" + val[5:len(val)-1]
+			return true
+		}
 		c, ok := vhSvgParseColor(val)
 		el.props[key] = "color"
 		el.cols[key] = c
@@ -248,9 +292,61 @@ func vhSvgSetProp(el *vhSvgEl, key, val string) bool {
 	return false
 }
 
+// vhSvgAttr finds name="value" inside the tag text.
+func vhSvgAttr(tag, name string) (string, bool) {
+	pat := " " + name + `="`
+	for i := 0; i+len(pat) <= len(tag); i++ {
+		if tag[i:i+len(pat)] == pat {
+			j := i + len(pat)
+			k := j
+			for k < len(tag) && tag[k] != '"' {
+				k++
+			}
+			return tag[j:k], true
+		}
+	}
+	return "", false
+}
+
+func vhSvgLexGrads(s string) bool {
+	vhSvgGrads = nil
+	ok := true
+	for i := 0; i < len(s); i++ {
+		if s[i] != '<' {
+			continue
+		}
+		j := i
+		for j < len(s) && s[j] != '>' {
+			j++
+		}
+		tag := s[i:j]
+		num := func(name string) float64 {
+			v, has := vhSvgAttr(tag, name)
+			f, err := strconv.ParseFloat(v, 64)
+			ok = ok && has && err == nil
+			return f
+		}
+		if len(tag) > 16 && tag[:16] == "<linearGradient " {
+			g := &vhSvgGrad{}
+			g.id, _ = vhSvgAttr(tag, "id")
+			g.x1, g.y1, g.x2, g.y2 = num("x1"), num("y1"), num("x2"), num("y2")
+			vhSvgGrads = append(vhSvgGrads, g)
+		} else if len(tag) > 6 && tag[:6] == "<stop " && len(vhSvgGrads) > 0 {
+			g := vhSvgGrads[len(vhSvgGrads)-1]
+			g.offs = append(g.offs, num("offset"))
+			cv, _ := vhSvgAttr(tag, "stop-color")
+			c, okC := vhSvgParseColor(cv)
+			ok = ok && okC
+			g.cols = append(g.cols, c)
+		}
+	}
+	return ok
+}
+
 func vhSvgLex(b []byte) (els []*vhSvgEl, ok bool) {
 	ok = true
 	s := string(b)
+	ok = vhSvgLexGrads(s)
 	i := 0
 	for {
 		// next "<path "
@@ -589,4 +685,60 @@ func VH_C12_svg_dash_Q() {
 	style.StrokeJoiner = jr
 	m, scale, similar := vhSvgMatrix(vChoose(0, 2))
 	vhSvgCheck(vhSvgPath(), style, m, scale, similar, "butt", joinName, lim, joinOK)
+}
+
+// gradient fill: the element refers to a gradient definition whose end points are the
+// gradient's, mirrored in y like the geometry, with the stops in order
+func VH_C12_svg_gradient_Q() {
+	vStub("!fmt.Fprintf", vhSvgFprintf)
+	vStub("!fmt.Sprintf", vhSvgSprintf)
+	vStub("!(*github.com/tdewolff/canvas.Path).ToSVG", vhSvgToSVG)
+	vhSvgRecs, vhSvgPaths = nil, nil
+	x1, y1, x2, y2 := vNondetDyadic(8, 2), vNondetDyadic(8, 2), vNondetDyadic(8, 2), vNondetDyadic(8, 2)
+	vAssume(x1 != x2 || y1 != y2)
+	g := canvas.NewLinearGradient(canvas.Point{X: x1, Y: y1}, canvas.Point{X: x2, Y: y2})
+	c0, c1 := vhSvgColor(), vhSvgColor()
+	g.Add(0, c0)
+	if vChoose(0, 1) == 1 {
+		g.Add(0.5, color.RGBA{0, 255, 0, 255})
+	}
+	g.Add(1, c1)
+	style := canvas.DefaultStyle
+	style.Fill = canvas.Paint{Gradient: g}
+	buf := &bytes.Buffer{}
+	const height = 80.0
+	r := New(buf, 100, height, nil)
+	r.RenderPath(vhSvgPath(), style, canvas.Identity)
+	r.Close()
+	var els []*vhSvgEl
+	var ok bool
+	if vInterp() {
+		els, ok = vhSvgFromRecs()
+	} else {
+		els, ok = vhSvgLex(buf.Bytes())
+	}
+	vAssert("C12.svg.gradient.elements", ok && len(els) == 1 && len(vhSvgGrads) == 1)
+	if !ok || len(els) != 1 || len(vhSvgGrads) != 1 {
+		return
+	}
+	gd := vhSvgGrads[0]
+	vAssert("C12.svg.gradient.referenced", els[0].props["fill"] == "url:"+gd.id && gd.id != "")
+	vAssert("C12.svg.gradient.endpoints_mirrored", vhSvgNumNear(gd.x1, x1) && vhSvgNumNear(gd.y1, height-y1) && vhSvgNumNear(gd.x2, x2) && vhSvgNumNear(gd.y2, height-y2))
+	good := len(gd.offs) == len(g.Stops) && len(gd.cols) == len(g.Stops)
+	if good {
+		for i, st := range g.Stops {
+			good = good && vhSvgNumNear(gd.offs[i], st.Offset) && vhSvgColNear(gd.cols[i], st.Color)
+		}
+	}
+	vAssert("C12.svg.gradient.stops", good)
+}
+
+// fmt.Sprintf is used for the definition's id only ("p%v")
+func vhSvgSprintf(format string, a ...interface{}) string {
+	if format == "p%v" && len(a) == 1 {
+		if n, isI := a[0].(int); isI {
+			return "p" + string(rune('0'+n))
+		}
+	}
+	return format
 }
